@@ -305,6 +305,39 @@ func (m *c15Machine) checkPickMin(what string, got *Dialer, gotLat time.Duration
 	}
 }
 
+// checkSticky: the tolerance makes the current choice sticky, so a selection that
+// excludes some *other* node (a failover retry) must hand out the same node, with
+// the same latency, as the selection without exclusion in the same state. Only
+// excluding the current choice itself may produce a different node.
+func (m *c15Machine) checkSticky(what string, best *Dialer, bestLat time.Duration, excluded *Dialer, got *Dialer, gotLat time.Duration) {
+	if best == nil || excluded == best {
+		return
+	}
+	if got != best {
+		name := "<nil>"
+		if got != nil {
+			name = m.byD[got].name
+		}
+		m.fatalf("%s returned %s although the excluded node is not the current choice %s: the choice may only change for the licensed reasons, not because some other node is excluded", what, name, m.byD[best].name)
+	}
+	b := m.byD[best]
+	if b.measured && gotLat != bestLat {
+		m.fatalf("%s returned latency %v, the unexcluded selection of the same node returns %v", what, gotLat, bestLat)
+	}
+	m.class("sticky_under_other_exclusion")
+	// was there a near-tie / unmeasured rival that a tolerance-blind scan would take?
+	for _, e := range m.aliveNodes() {
+		if e == b || e.d == excluded {
+			continue
+		}
+		if !e.measured || (b.measured && e.pub < b.pub) {
+			m.class("sticky_with_rival")
+			m.ntHit = true
+			break
+		}
+	}
+}
+
 func (m *c15Machine) checkStructure() {
 	a := m.set
 	a.mu.RLock()
@@ -495,10 +528,12 @@ func c15RunSetHistory(t *rapid.T) {
 		dialers = append(dialers, d)
 		annos = append(annos, &Annotation{AddLatency: n.offset})
 	}
+	foreign := NewDialer(c15NoopDialer{}, opt, InstanceOption{DisableCheck: true}, &Property{Property: D.Property{Name: "foreign"}})
 	defer func() {
 		for _, d := range dialers {
 			_ = d.Close()
 		}
+		_ = foreign.Close()
 	}()
 	// pre-history: some nodes already measured / already dead before the set exists.
 	preAlive := make([]bool, nNodes)
@@ -631,14 +666,29 @@ func c15RunSetHistory(t *rapid.T) {
 			ex := pickExcluded()
 			m.logf("select excluding %s", ex.name)
 			if c15IsMin(m.policy) {
+				best, bestLat := m.set.GetMinLatency(nil)
 				d, lat := m.set.GetMinLatency(ex.d)
 				m.checkPickMin("GetMinLatency(excluded)", d, lat, ex)
+				m.checkSticky("GetMinLatency(excluded "+ex.name+")", best, bestLat, ex.d, d, lat)
 				m.class("ev_select_min_excluded")
 			} else {
 				d := m.set.GetRandExcluded(ex.d)
 				m.checkPickRandom("GetRandExcluded", d, ex)
 				m.class("ev_select_rand_excluded")
 			}
+		},
+		"select_excluded_foreign": func(t *rapid.T) {
+			// a failover retry may carry a node that is not (or no longer) in this set
+			m.logf("select excluding <foreign>")
+			if c15IsMin(m.policy) {
+				best, bestLat := m.set.GetMinLatency(nil)
+				d, lat := m.set.GetMinLatency(foreign)
+				m.checkPickMin("GetMinLatency(foreign)", d, lat, nil)
+				m.checkSticky("GetMinLatency(excluded <foreign>)", best, bestLat, foreign, d, lat)
+			} else {
+				m.checkPickRandom("GetRandExcluded(foreign)", m.set.GetRandExcluded(foreign), nil)
+			}
+			m.class("ev_select_excluded_foreign")
 		},
 		"random_coverage": func(t *rapid.T) {
 			if m.policy != consts.DialerSelectionPolicy_Random {
